@@ -970,14 +970,18 @@ def dfa_difference(d1, d2, labels) -> Optional[list[str]]:
 class ApplyInterp:
     """Abstract run of an Operator.apply(self, stack) body on a symbolic heap."""
 
-    def __init__(self, prj: Project, fi: FuncInfo, branch_choice: dict, stack_depth: int):
+    def __init__(self, prj: Project, fi: FuncInfo, branch_choice: dict, stack_depth: int,
+                 frag: "Frag | None" = None, stack: list | None = None, sub=None, atom_label: str | None = None):
         self.prj, self.fi = prj, fi
-        self.frag = Frag()
+        self.frag = frag if frag is not None else Frag()
         self.branch_choice = branch_choice   # id(If node) -> bool for data-dependent tests
-        self.stack: list[tuple[int, int]] = []
+        self.stack: list[tuple[int, int]] = stack if stack is not None else []
         self.popped = 0
-        for i in range(stack_depth):
-            self.stack.append(self.frag.subnfa(f"S{i}"))   # S0 pushed first
+        self.sub = sub                  # callback: field name -> ('nfa', start, accepting) built in the same heap
+        self.atom_label = atom_label
+        if stack is None:
+            for i in range(stack_depth):
+                self.stack.append(self.frag.subnfa(f"S{i}"))   # S0 pushed first
         self.env: dict[str, object] = {}
         self.undecided: list[ast.If] = []
         self.returned = False
@@ -1101,6 +1105,8 @@ class ApplyInterp:
             if name == "expression_to_nfa" and len(n.args) == 1:
                 a = self.ev(n.args[0])
                 if isinstance(a, tuple) and a[0] == "field":
+                    if self.sub is not None:
+                        return self.sub(a[1])
                     s, acc = self.frag.subnfa(a[1])
                     return ("nfa", s, acc)
                 raise Unsupported(f"{fi.site(n)}: expression_to_nfa of {unparse(n.args[0])}")
@@ -1154,8 +1160,9 @@ class ApplyInterp:
         if isinstance(v, tuple) and len(v) == 2 and isinstance(v[1], int):
             lab = v[0]
             if isinstance(lab, tuple) and lab[0] in ("field", "pred"):
-                self.frag.labels.append("item")
-                return ("item", v[1])
+                name = self.atom_label or "item"
+                self.frag.labels.append(name)
+                return (name, v[1])
         raise Unsupported(f"transition edge {v!r}")
 
 
@@ -1178,3 +1185,76 @@ def operator_fragments(prj: Project, ci: ClassInfo, stack_depth: int):
             frag.lab[k] = [(e if isinstance(e, tuple) and isinstance(e[0], str) else e) for e in lst]
         out.append((dict(zip([unparse(i.test) for i in ifs], choice)), frag))
     return fi, out
+
+
+# ----------------------------------------------------------------------------
+# composing the extracted fragments (thorough tier of C13)
+# ----------------------------------------------------------------------------
+
+class Composer:
+    """Builds the automaton of a whole pattern tree out of the fragments that the
+    repo's own Operator.apply bodies wire (no black boxes): the sub-automaton of an
+    operand is obtained by running the operand's apply in the same symbolic heap,
+    and sequences follow expression_to_nfa (item.apply, then Concat.apply)."""
+    CLS = {"atom": "Atom", "union": "Union", "opt": "Optional", "star": "ZeroOrMore", "plus": "OneOrMore"}
+
+    def __init__(self, prj: Project):
+        self.prj = prj
+        base = prj.cls("codelimit.common.gsm.operator.Operator:Operator")
+        self.ops = {c.name: c for c in base.all_subclasses()}
+
+    def sequence(self, items: list, frag: Frag) -> tuple[int, int]:
+        stack: list[tuple[int, int]] = []
+        for it in items:
+            self.apply(it, frag, stack)
+            self._run(self.ops["Concat"].methods["apply"], frag, stack, None, None)
+        if len(stack) != 1:
+            raise AnalysisError(f"sequence left {len(stack)} automata on the stack")
+        return stack.pop()
+
+    def _items(self, p: Pat) -> list:
+        return p.kids if p.op == "seq" else [p]
+
+    def apply(self, p: Pat, frag: Frag, stack):
+        if p.op == "seq":
+            raise AnalysisError("a list nested directly in a list is not an operand the engine supports")
+        ci = self.ops[self.CLS[p.op]]
+        fi = ci.methods["apply"]
+        fields = [f for f in ("left", "right", "expression")]
+        kid_of = {}
+        if p.op == "union":
+            kid_of = {"left": p.kids[0], "right": p.kids[1]}
+        elif p.op in ("opt", "star", "plus"):
+            kid_of = {"expression": p.kids[0]}
+
+        def sub(field):
+            if field not in kid_of:
+                raise Unsupported(f"{ci.name}.apply builds the automaton of unknown field {field}")
+            s, a = self.sequence(self._items(kid_of[field]), frag)
+            return ("nfa", s, a)
+        label = p.pred.args[0] if p.op == "atom" and p.pred.args else None
+        self._run(fi, frag, stack, sub, label)
+
+    def _run(self, fi, frag, stack, sub, label):
+        it = ApplyInterp(self.prj, fi, {}, 0, frag=frag, stack=stack, sub=sub, atom_label=label)
+        it.block(fi.node.body)
+
+    def dfa(self, p: Pat, labels):
+        frag = Frag()
+        s, a = self.sequence(self._items(p), frag)
+        frag.result = (s, a)
+        frag.labels = list(set(frag.labels) | set(labels))
+        return frag.dfa()
+
+
+def pat_to_regex(p: Pat):
+    if p.op == "atom":
+        return ("sym", p.pred.args[0])
+    if p.op == "seq":
+        r = pat_to_regex(p.kids[0])
+        for k in p.kids[1:]:
+            r = ("cat", r, pat_to_regex(k))
+        return r
+    if p.op == "union":
+        return ("alt", pat_to_regex(p.kids[0]), pat_to_regex(p.kids[1]))
+    return ({"opt": "opt", "star": "star", "plus": "plus"}[p.op], pat_to_regex(p.kids[0]))
